@@ -192,4 +192,53 @@ def uinit (reqs : Nat → Nat) (n0 : Nat) : UState :=
 
 def UComplete (s : UState) : Prop := ∀ t, (s.thr t).pc = .rdInit ∧ (s.thr t).todo = 0
 
+/-! ### a lock-free SPLIT counter (not the code of the repository: the documented witness of a fault class)
+
+   The 64-bit counter is kept in two pieces: `ticket` (low part, modulo `B = 2^k`, reserved by one atomic
+   fetch-and-add) and `epoch` (high part).  A request performs
+       lo := fetch_add(ticket, 1) mod B;   hi := epoch;   if lo = B-1 then epoch := hi + 1;   generate(hi·B + lo)
+   Every access is atomic (no data race), sequentially the nonces are n0, n0+1, …, and so are they in every schedule
+   that does not straddle a multiple of `B`.  Across a carry the pair (ticket, epoch) is not reserved atomically:
+   see `C18.split_counter_reuse` / `split_counter_skip`.  The position in the process's history (`n0` close to a
+   multiple of `B`) is what the boundary mode of harness/conc18.cpp generates. -/
+
+inductive SPc where
+  | fetch | rdEpoch | carry | gen | done
+deriving DecidableEq, Repr
+
+structure STState where
+  pc : SPc
+  lo : Nat
+  hi : Nat
+deriving DecidableEq, Repr
+
+/-- two threads, one request each (enough for the witnesses) -/
+structure SState where
+  ticket : Nat
+  epoch : Nat
+  t0 : STState
+  t1 : STState
+  out : List (Nat × Nat)     -- (thread, nonce) generated, chronological
+deriving DecidableEq, Repr
+
+def sstep (B : Nat) (s : SState) (t : Nat) : Option SState :=
+  let ts := if t = 0 then s.t0 else s.t1
+  let put (s : SState) (v : STState) : SState := if t = 0 then { s with t0 := v } else { s with t1 := v }
+  match ts.pc with
+  | .fetch => some (put { s with ticket := (s.ticket + 1) % B } { ts with pc := .rdEpoch, lo := s.ticket })
+  | .rdEpoch => some (put s { ts with pc := .carry, hi := s.epoch })
+  | .carry => some (put (if ts.lo = B - 1 then { s with epoch := ts.hi + 1 } else s) { ts with pc := .gen })
+  | .gen => some (put { s with out := s.out ++ [(t, (ts.hi * B + ts.lo) % W)] } { ts with pc := .done })
+  | .done => none
+
+def srun (B : Nat) (s : SState) : List Nat → Option SState
+  | [] => some s
+  | t :: r => match sstep B s t with
+    | none => none
+    | some s' => srun B s' r
+
+/-- the counter stands at `n0` (`n0 = epoch·B + ticket`), both threads are about to make one request -/
+def sinit (B n0 : Nat) : SState :=
+  { ticket := n0 % B, epoch := n0 / B, t0 := ⟨.fetch, 0, 0⟩, t1 := ⟨.fetch, 0, 0⟩, out := [] }
+
 end Nfl.Prng18
